@@ -68,8 +68,14 @@ class C20(PropertyCheck):
             if tw and tw in impl:
                 ra = [l for l in a if l.startswith("R ")]; rb = [l for l in impl[tw] if l.startswith("R ")]
                 self.oracle_comparisons += 1
-                if ra != rb:
-                    i = next((i for i, (x, y) in enumerate(zip(ra, rb)) if x != y), min(len(ra), len(rb)))
+                cmds = [e for e in s.events if e[0] == "cmd"]
+                def same(i, x, y):
+                    if x == y: return True
+                    opts = self.reply_opts(cmds[i][2:]) if i < len(cmds) else {}
+                    u, v = norm_tree(parse_reply(x[2:]), parse_reply(y[2:]), **opts)
+                    return u == v
+                if len(ra) != len(rb) or not all(same(i, x, y) for i, (x, y) in enumerate(zip(ra, rb))):
+                    i = next((i for i, (x, y) in enumerate(zip(ra, rb)) if not same(i, x, y)), min(len(ra), len(rb)))
                     rej.append((s, {"what": "replies depend on the contents of a database that no connection selected",
                                     "index": i, "with_foreign_data": ra[i:i + 1], "without": rb[i:i + 1]}))
         return impl, model, div, rej
